@@ -4,13 +4,95 @@
 import c05
 from vlib import Leg
 
+# ---- names that START with a reserved word (seeded/C14-6: StrToDefineVarStruct whitelists a typed prefix that is exactly a
+# reserved word / snippet label before it hands the text to the expression parser; the look-up of the reserved-word table was
+# lost, so the prefix `in` of `index1`, `or` of `order1`, `end` of `endpoint1` ... made completion answer nothing).  prefix_steps
+# asks at EVERY prefix end of every identifier: exactly at the reserved word, one character shorter and one longer are all there.
+# No name of the pools is itself a reserved word, a snippet label or a Lua library name (precondition of the leg).
+KW_STEMS = ["and", "break", "end", "goto", "in", "local", "not", "or", "return", "until", "nil", "true", "false",
+            "if", "else", "elseif", "for", "do", "while", "repeat", "function"]                  # the last eight: controls (snippet labels)
+# `then` is the one reserved word that is in NEITHER table of the unchanged code (common/global_conf.go: CompKeyMap lists `local`
+# twice and `then` never): a typed prefix that is exactly `then` (of then_1, thenx, thenable ...) goes to the expression parser,
+# fails there and completion answers NOTHING - finding C14-then-prefix, reported to the lead; those names live in the exploratory
+# leg c14.then (deviations recorded in the evidence, not deciding) until the table is repaired and the model / a class says so
+KW_TAILS = ["x", "y", "_", "dex", "er", "ify", "able", "ish", "point", "ed", "1", "s"]
+KW_LOCALS = ["index1", "order1", "endpoint1", "notify1", "localx", "returned2", "untilx", "nilable", "trueish", "falsey", "andy",
+             "breaker", "gotox", "inx", "orx", "endx", "doer", "ifx", "format1"]
+KW_GLOBALS = ["Index", "orders", "ending", "notes", "locale", "inbox", "android", "nilG", "untilG", "returnG", "gotoG", "breakG"]
+
+
+class KwNames:
+    """mixin for c05.ProgGen / c05.WideGen: declared names start with reserved words"""
+
+    stems = KW_STEMS
+
+    def fresh(self, kind="v"):
+        r = self.r
+        if self.unique:
+            self.counter += 1
+            return "%s%s%d" % (r.choice(self.stems[:13] if r.random() < 0.8 else self.stems), r.choice(KW_TAILS + ["", ""]), self.counter)
+        return r.choice(KW_LOCALS) if r.random() < 0.8 else r.choice(c05.LOCALS)
+
+
+class KwProg(KwNames, c05.ProgGen):
+    pass
+
+
+class KwWide(KwNames, c05.WideGen):
+    pass
+
+
+class ThenProg(KwNames, c05.ProgGen):
+    stems = ["then", "then", "in", "the"]
+
+
+def gen_then(rng, tier):
+    return kw_cases(rng, tier, 8, True, ThenProg)
+
+
+def kw_workspace(rng, unique, cls):
+    nfiles = rng.choice([1, 1, 1, 2])
+    gp = list(KW_GLOBALS)
+    rng.shuffle(gp)
+    out = []
+    for fi, fn in enumerate(["a.lua", "b.lua"][:nfiles]):
+        pool = gp[fi::nfiles]
+        g = cls(rng, unique=unique, globals_pool=pool, define_globals=True, size=rng.choice([6, 10, 14]))
+        toks = g.chunk()
+        if nfiles > 1:
+            for _ in range(rng.choice([1, 2])):
+                toks += [rng.choice(c05.UNDEF), "(", rng.choice([x for x in gp if x not in pool]), ")"]
+        text, pos = c05.render(toks, rng)
+        out.append((fn, text, c05.ident_positions(pos)))
+    return out
+
+
+def kw_cases(rng, tier, quick, unique, cls):
+    out = []
+    for _ in range(c05.n_programs(tier, quick=quick)):
+        ws = kw_workspace(rng, unique, cls)
+        out.append(c05.make_case([(fn, text) for fn, text, _ in ws], c05.prefix_steps(ws)))
+    return out
+
+
+KW_SEED = ("local index1 = 1\nlocal order1 = 2\nlocal function endpoint1(notify1, localx)\n  local returned2 = notify1\n"
+           "  for untilx = 1, 3 do\n    use(index1, order1, untilx)\n  end\n  for nilable, trueish in iter(localx) do\n"
+           "    use(nilable, trueish, returned2)\n  end\n  return endpoint1\nend\nandroid = index1\nuse(android, gotox, breaker, falsey)\n")
+
+
+def kw_seed_case():
+    import re
+    pos = [(m.group(0), li, m.start()) for li, ln in enumerate(KW_SEED.split("\n")) for m in re.finditer(r"[A-Za-z_][A-Za-z0-9_]*", ln)]
+    ws = [("a.lua", KW_SEED, c05.ident_positions(pos))]
+    return c05.make_case([("a.lua", KW_SEED)], c05.prefix_steps(ws))
+
 
 def gen_complete(rng, tier):
     out = []
     for _ in range(c05.n_programs(tier, quick=300)):
         ws = c05.gen_workspace(rng, unique=True)
         out.append(c05.make_case([(fn, text) for fn, text, _ in ws], c05.prefix_steps(ws)))
-    return out
+    return [kw_seed_case()] + out + kw_cases(rng, tier, 30, True, KwProg)
 
 
 def gen_corr(rng, tier):
@@ -18,7 +100,7 @@ def gen_corr(rng, tier):
     for _ in range(c05.n_programs(tier, quick=150)):
         ws = c05.gen_workspace(rng)
         out.append(c05.make_case([(fn, text) for fn, text, _ in ws], c05.prefix_steps(ws)))
-    return out
+    return out + kw_cases(rng, tier, 15, False, KwProg)
 
 
 def gen_complete_wide(rng, tier):
@@ -28,7 +110,7 @@ def gen_complete_wide(rng, tier):
         out.append(c05.make_case([(fn, text) for fn, text, _ in ws], c05.prefix_steps(ws)))
     for ws in c05.chain_workspaces(rng, tier, 12, unique=True):     # call-chain STATEMENTS with callbacks (seeded C05-5)
         out.append(c05.make_case([(fn, text) for fn, text, _ in ws], c05.prefix_steps(ws)))
-    return out
+    return out + kw_cases(rng, tier, 12, True, KwWide)
 
 
 def gen_corr_wide(rng, tier):
@@ -38,7 +120,7 @@ def gen_corr_wide(rng, tier):
         out.append(c05.make_case([(fn, text) for fn, text, _ in ws], c05.prefix_steps(ws)))
     for ws in c05.chain_workspaces(rng, tier, 6):
         out.append(c05.make_case([(fn, text) for fn, text, _ in ws], c05.prefix_steps(ws)))
-    return out
+    return out + kw_cases(rng, tier, 8, False, KwWide)
 
 
 LEGS = [
@@ -49,7 +131,13 @@ LEGS = [
     c05.wide_leg("c14.wide", "c14.complete", gen_complete_wide),
     c05.wide_leg("c14.widecorr", "c14.corr", gen_corr_wide),
 ]
+# names starting with `then` (finding C14-then-prefix, fixed by 0a8e83e: `then` was missing from the completion keyword table, a typed
+# prefix `then` answered nothing); deciding since the repair: a regression of the table shows here
+THEN_LEG = Leg("c14.then", gen_then, nontrivial=c05.nontrivial, describe=c05.describe, per_case_s=1.5, skip_model=c05.skip_model)
+THEN_LEG.run_as, THEN_LEG.impl_as = "c14.complete", "srv.script"
+LEGS.append(THEN_LEG)
 
 
 def main(tier, seed):
-    return c05.run_family("C14", LEGS, tier, seed)
+    return c05.run_family("C14", LEGS, tier, seed, assume_extra=[
+        "every reserved word is a prefix of declared names of the deciding legs (incl. `then`, leg c14.then, since fix 0a8e83e)"])
